@@ -111,8 +111,9 @@ Section Transform.
     let '(ret, err2) := pt_with_error m p in
     let err1 := vscale (mul3x3_abs m (vx e) (vy e) (vz e)) (n1 + ngamma 3) in
     (ret, vadd err1 err2).
+  (** a vector's image does not involve the translation column, nor does its error (fix: vectors use [mul3x3_abs]) *)
   Definition vec_with_error (m : M4) (v : V) : V * V :=
-    (mul4x4vec m v, vscale (mul4x4_abs m (vx v) (vy v) (vz v)) (ngamma 3)).
+    (mul4x4vec m v, vscale (mul3x3_abs m (vx v) (vy v) (vz v)) (ngamma 3)).
   Definition vec_propagate_error (m : M4) (v e : V) : V * V :=
     let '(ret, err2) := vec_with_error m v in
     let err1 := vscale (mul3x3_abs m (vx e) (vy e) (vz e)) (n1 + ngamma 3) in
